@@ -798,7 +798,7 @@ def generate_constructor_for_class(
             if use_wrapper
             else emitter.native_function_call(init_fn.decl)
         )
-        cast = "!= NULL ? 0 : -1" if use_wrapper else ""
+        cast = "!= NULL ? 0 : 2" if use_wrapper else ""
         emitter.emit_line(f"char res = {call}({args}){cast};")
         emitter.emit_line("if (res == 2) {")
         emitter.emit_line("Py_DECREF(self);")
